@@ -1,5 +1,6 @@
 pub mod bed;
 pub mod checks;
+pub mod contacts;
 pub mod conv;
 pub mod gen;
 pub mod hostile;
